@@ -60,8 +60,31 @@ def _siginfo(si):
             'nonce': si.signature_nonce, 'time': si.signature_time, 'seq': si.signature_seq_num}
 
 
+def _scribble_result(name, params):
+    """What a decoder returns belongs to the caller, who may change it: a later decode must not see those changes."""
+    try:
+        if isinstance(name, list):
+            name.append(b'\x08\x07scribble')
+        for attr, val in (('content_type', 99), ('freshness_period', 987654), ('final_block_id', b'\x08\x01!'),
+                          ('nonce', 0xDEADBEEF), ('lifetime', 1), ('hop_limit', 1), ('can_be_prefix', True), ('must_be_fresh', True)):
+            if hasattr(params, attr):
+                setattr(params, attr, val)
+        fh = getattr(params, 'forwarding_hint', None)
+        if isinstance(fh, list):
+            fh.append([b'\x08\x04hint'])
+    except Exception:
+        pass
+
+
 def lib_data(w):
     name, meta, content, sig = parse_data(w)
+    try:
+        return _lib_data(name, meta, content, sig)
+    finally:
+        _scribble_result(name, meta)
+
+
+def _lib_data(name, meta, content, sig):
     return {'name': _name(name),
             'meta': {'content_type': meta.content_type, 'freshness_period': meta.freshness_period,
                      'final_block_id': _b(meta.final_block_id)},
@@ -71,6 +94,13 @@ def lib_data(w):
 
 def lib_interest(w):
     name, p, app, sig = parse_interest(w)
+    try:
+        return _lib_interest(name, p, app, sig)
+    finally:
+        _scribble_result(name, p)
+
+
+def _lib_interest(name, p, app, sig):
     return {'name': _name(name), 'can_be_prefix': bool(p.can_be_prefix), 'must_be_fresh': bool(p.must_be_fresh),
             'nonce': p.nonce, 'lifetime': p.lifetime, 'hop_limit': p.hop_limit,
             'forwarding_hint': [_name(n) for n in p.forwarding_hint] or None, 'app_param': _b(app),
